@@ -733,6 +733,7 @@ class MasterSim(object):
         self.tick()
         self.vanished.setdefault(name, self.clock.peek())
         self.tree.expire(self.nodes.pop(name))
+        self.last_down = name
 
     def _up(self, name, spec=None):
         if name is None or name in self.nodes:
@@ -752,6 +753,18 @@ class MasterSim(object):
     def op_up(self, idx, spec=None):
         """The node (re)boots, possibly with other capacity/traits."""
         self._up(self._pick_server(idx), spec)
+
+    def op_uptrait(self, idx, mask):
+        """The node that went down last comes back rebuilt: same capacity,
+        other traits (bits as in a server spec: published traits only)."""
+        name = getattr(self, 'last_down', None)
+        if name is None or name in self.nodes or \
+                name not in self.server_records:
+            return self.op_up(idx)
+        old = self.server_records[name]
+        self.count('uptrait')
+        return self._up(name, {'cap': old['cap'], 'traits': mask,
+                               'style': old.get('style', 0)})
 
     def op_reboot(self, idx, spec=None):
         name = self._pick_loaded(idx)
